@@ -69,7 +69,7 @@ CHECKS.update({
             "Trusted: formulas as documented (docs/*.rst, docstrings) coded in vp/gen/results.py; where docs leave a choice the numpy/pandas defaults are accepted (listed in the evidence).", "DESIGN.md §3 C19"),
 })
 
-READY = ["C01", "C05", "C10", "C11", "C13", "C14", "C17", "C18", "C19", "C20"]
+READY = ["C01", "C04", "C05", "C10", "C11", "C13", "C14", "C17", "C18", "C19", "C20"]
 
 NOT_BUILT = "check not built yet in this session (design in DESIGN.md); not claimed"
 
